@@ -1,3 +1,482 @@
-/* Further protosim schemes (pairing-based signatures, PSI, delegation, ...). */
+/* Further protosim schemes (included by protosim.c). */
+
 static void extra_boot(void) {}
-#define EXTRA_SCHEMES
+
+/* Re-randomisation by the adversary on the wire: a legal malleation of CL / PS signatures. */
+static int want_rerand(sess_t *s) {
+	fault_t *f = find_fault(s, "sig");
+	return f && !strcmp(f->kind, "v_rerand");
+}
+
+/* ---- Boneh-Boyen: pk q in G2, z in GT, signature in G1 ---- */
+static int sch_bbs(sess_t *s) {
+	switch (s->phase) {
+		case 0: log_rc(s, "gen", cp_bbs_gen(s->b[0], s->g2[0], s->gt[0])); return 1;
+		case 1: log_rc(s, "sig", cp_bbs_sig(s->g1[0], s->msg, s->msg_len, (int)s->opt[0], s->b[0])); return 1;
+		case 2: {
+			int ok = 1;
+			ok &= xmit_g2(s, "pk", s->g2[5], s->g2[0], (int)s->opt[1]);
+			ok &= xmit_gt(s, "z", s->gt[5], s->gt[0], 0);
+			ok &= xmit_g1(s, "sig", s->g1[5], s->g1[0], (int)s->opt[1]);
+			s->blen[0] = xmit_bytes(s, "msg", s->buf[0], s->msg, s->msg_len);
+			s->flag[0] = ok;
+			return 1;
+		}
+		case 3:
+			if (s->flag[0]) log_ver(s, "ver", cp_bbs_ver(s->g1[5], s->buf[0], s->blen[0], (int)s->opt[0], s->g2[5], s->gt[5]) == 1);
+			else tr_printf("VER %d ver decode-failed\n", s->sid);
+			return 0;
+	}
+	return 0;
+}
+
+/* ---- ZSS: pk q in G1, signature in G2 ---- */
+static int sch_zss(sess_t *s) {
+	switch (s->phase) {
+		case 0: log_rc(s, "gen", cp_zss_gen(s->b[0], s->g1[0], s->gt[0])); return 1;
+		case 1: log_rc(s, "sig", cp_zss_sig(s->g2[0], s->msg, s->msg_len, (int)s->opt[0], s->b[0])); return 1;
+		case 2: {
+			int ok = 1;
+			ok &= xmit_g1(s, "pk", s->g1[5], s->g1[0], (int)s->opt[1]);
+			ok &= xmit_gt(s, "z", s->gt[5], s->gt[0], 0);
+			ok &= xmit_g2(s, "sig", s->g2[5], s->g2[0], (int)s->opt[1]);
+			s->blen[0] = xmit_bytes(s, "msg", s->buf[0], s->msg, s->msg_len);
+			s->flag[0] = ok;
+			return 1;
+		}
+		case 3:
+			if (s->flag[0]) log_ver(s, "ver", cp_zss_ver(s->g2[5], s->buf[0], s->blen[0], (int)s->opt[0], s->g1[5], s->gt[5]) == 1);
+			else tr_printf("VER %d ver decode-failed\n", s->sid);
+			return 0;
+	}
+	return 0;
+}
+
+/* ---- Camenisch-Lysyanskaya A ---- */
+static int sch_cls(sess_t *s) {
+	switch (s->phase) {
+		case 0: log_rc(s, "gen", cp_cls_gen(s->b[0], s->b[1], s->g2[0], s->g2[1])); return 1;
+		case 1: log_rc(s, "sig", cp_cls_sig(s->g1[0], s->g1[1], s->g1[2], s->msg, s->msg_len, s->b[0], s->b[1])); return 1;
+		case 2: {
+			int ok = 1;
+			if (want_rerand(s)) {
+				bn_rand_mod(s->b[5], ord);
+				for (int i = 0; i < 3; i++) { g1_mul(s->g1[i], s->g1[i], s->b[5]); }
+				tr_printf("NOTE %d rerandomised\n", s->sid);
+			}
+			ok &= xmit_g2(s, "x", s->g2[5], s->g2[0], (int)s->opt[1]);
+			ok &= xmit_g2(s, "y", s->g2[6], s->g2[1], (int)s->opt[1]);
+			ok &= xmit_g1(s, "a", s->g1[5], s->g1[0], (int)s->opt[1]);
+			ok &= xmit_g1(s, "b", s->g1[6], s->g1[1], (int)s->opt[1]);
+			ok &= xmit_g1(s, "c", s->g1[7], s->g1[2], (int)s->opt[1]);
+			s->blen[0] = xmit_bytes(s, "msg", s->buf[0], s->msg, s->msg_len);
+			s->flag[0] = ok;
+			return 1;
+		}
+		case 3:
+			if (s->flag[0]) log_ver(s, "ver", cp_cls_ver(s->g1[5], s->g1[6], s->g1[7], s->buf[0], s->blen[0], s->g2[5], s->g2[6]) == 1);
+			else tr_printf("VER %d ver decode-failed\n", s->sid);
+			return 0;
+	}
+	return 0;
+}
+
+/* ---- Camenisch-Lysyanskaya B (committed message) ---- */
+static int sch_cli(sess_t *s) {
+	switch (s->phase) {
+		case 0: log_rc(s, "gen", cp_cli_gen(s->b[0], s->b[1], s->b[2], s->g2[0], s->g2[1], s->g2[2])); return 1;
+		case 1:
+			bn_rand_mod(s->b[3], ord);
+			log_rc(s, "sig", cp_cli_sig(s->g1[0], s->g1[1], s->g1[2], s->g1[3], s->g1[4], s->msg, s->msg_len, s->b[3],
+					s->b[0], s->b[1], s->b[2]));
+			return 1;
+		case 2: {
+			int ok = 1;
+			ok &= xmit_g2(s, "x", s->g2[5], s->g2[0], (int)s->opt[1]);
+			ok &= xmit_g2(s, "y", s->g2[6], s->g2[1], (int)s->opt[1]);
+			ok &= xmit_g2(s, "z", s->g2[7], s->g2[2], (int)s->opt[1]);
+			ok &= xmit_g1(s, "a", s->g1[5], s->g1[0], (int)s->opt[1]);
+			ok &= xmit_g1(s, "A", s->g1[6], s->g1[1], (int)s->opt[1]);
+			ok &= xmit_g1(s, "b", s->g1[7], s->g1[2], (int)s->opt[1]);
+			ok &= xmit_g1(s, "B", s->g1[8], s->g1[3], (int)s->opt[1]);
+			ok &= xmit_g1(s, "c", s->g1[9], s->g1[4], (int)s->opt[1]);
+			ok &= xmit_bn(s, "r", s->b[12], s->b[3], 0);
+			s->blen[0] = xmit_bytes(s, "msg", s->buf[0], s->msg, s->msg_len);
+			s->flag[0] = ok;
+			return 1;
+		}
+		case 3:
+			if (s->flag[0]) log_ver(s, "ver", cp_cli_ver(s->g1[5], s->g1[6], s->g1[7], s->g1[8], s->g1[9], s->buf[0], s->blen[0],
+						s->b[12], s->g2[5], s->g2[6], s->g2[7]) == 1);
+			else tr_printf("VER %d ver decode-failed\n", s->sid);
+			return 0;
+	}
+	return 0;
+}
+
+/* ---- Camenisch-Lysyanskaya C (block messages), l = opt[4] in 1..3 ---- */
+static int sch_clb(sess_t *s) {
+	size_t l = (size_t)s->opt[4];
+	if (l < 1) l = 1;
+	if (l > 3) l = 3;
+	/* messages: the session message split in l blocks */
+	const uint8_t *ms[3];
+	size_t ls[3];
+	size_t part = s->msg_len / l;
+	char name[8];
+	switch (s->phase) {
+		case 0:
+			/* t b[0], u b[1], v[] b[2..], x g2[0], y g2[1], z[] g2[2..] */
+			log_rc(s, "gen", cp_clb_gen(s->b[0], s->b[1], s->b + 2, s->g2[0], s->g2[1], s->g2 + 2, l));
+			return 1;
+		case 1:
+			for (size_t i = 0; i < l; i++) { ms[i] = s->msg + i * part; ls[i] = (i == l - 1) ? s->msg_len - i * part : part; }
+			/* a g1[0], A[] g1[1..3], b g1[4], B[] g1[5..7], c g1[8] */
+			log_rc(s, "sig", cp_clb_sig(s->g1[0], s->g1 + 1, s->g1[4], s->g1 + 5, s->g1[8], ms, ls, s->b[0], s->b[1], s->b + 2, l));
+			return 1;
+		case 2: {
+			int ok = 1;
+			/* the verifier's copies reuse the upper half of the arrays after the sender is done */
+			g2_t *rx = s->g2 + 5;		/* x', y', z'[] at g2[5], g2[6], g2[7..9] */
+			ok &= xmit_g2(s, "x", rx[0], s->g2[0], (int)s->opt[1]);
+			ok &= xmit_g2(s, "y", rx[1], s->g2[1], (int)s->opt[1]);
+			for (size_t i = 0; i + 1 < l; i++) {
+				snprintf(name, sizeof(name), "z%zu", i);
+				ok &= xmit_g2(s, name, rx[2 + i], s->g2[2 + i], (int)s->opt[1]);
+			}
+			/* signature components are delivered in place (sender objects are not needed any more) */
+			const char *nm[9] = { "a", "A0", "A1", "A2", "b", "B0", "B1", "B2", "c" };
+			for (int i = 0; i < 9; i++) {
+				/* a scheme with l blocks has l - 1 auxiliary elements A_i, B_i, Z_i */
+				if ((i >= 1 && i <= 3 && (size_t)i >= l) || (i >= 5 && i <= 7 && (size_t)(i - 4) >= l)) continue;
+				g1_t t;
+				g1_null(t); g1_new(t);
+				g1_copy(t, s->g1[i]);
+				ok &= xmit_g1(s, nm[i], s->g1[i], t, (int)s->opt[1]);
+				g1_free(t);
+			}
+			s->blen[0] = xmit_bytes(s, "msg", s->buf[0], s->msg, s->msg_len);
+			s->flag[0] = ok;
+			return 1;
+		}
+		case 3:
+			if (s->flag[0]) {
+				size_t ml = s->blen[0];
+				size_t p2 = ml / l;
+				for (size_t i = 0; i < l; i++) { ms[i] = s->buf[0] + i * p2; ls[i] = (i == l - 1) ? ml - i * p2 : p2; }
+				log_ver(s, "ver", cp_clb_ver(s->g1[0], (const g1_t *)(s->g1 + 1), s->g1[4], (const g1_t *)(s->g1 + 5), s->g1[8], ms, ls,
+						s->g2[5], s->g2[6], (const g2_t *)(s->g2 + 7), l) == 1);
+			} else tr_printf("VER %d ver decode-failed\n", s->sid);
+			return 0;
+	}
+	return 0;
+}
+
+/* ---- Pointcheval-Sanders (single message in Z_r) ---- */
+static int sch_pss(sess_t *s) {
+	switch (s->phase) {
+		case 0: log_rc(s, "gen", cp_pss_gen(s->b[0], s->b[1], s->g2[0], s->g2[1], s->g2[2])); return 1;
+		case 1:
+			bn_read_bin(s->b[2], s->msg, s->msg_len > 32 ? 32 : s->msg_len);
+			bn_mod(s->b[2], s->b[2], ord);
+			log_rc(s, "sig", cp_pss_sig(s->g1[0], s->g1[1], s->b[2], s->b[0], s->b[1]));
+			return 1;
+		case 2: {
+			int ok = 1;
+			if (want_rerand(s)) {
+				bn_rand_mod(s->b[5], ord);
+				for (int i = 0; i < 2; i++) { g1_mul(s->g1[i], s->g1[i], s->b[5]); }
+				tr_printf("NOTE %d rerandomised\n", s->sid);
+			}
+			ok &= xmit_g2(s, "g", s->g2[5], s->g2[0], (int)s->opt[1]);
+			ok &= xmit_g2(s, "x", s->g2[6], s->g2[1], (int)s->opt[1]);
+			ok &= xmit_g2(s, "y", s->g2[7], s->g2[2], (int)s->opt[1]);
+			ok &= xmit_g1(s, "a", s->g1[5], s->g1[0], (int)s->opt[1]);
+			ok &= xmit_g1(s, "b", s->g1[6], s->g1[1], (int)s->opt[1]);
+			ok &= xmit_bn(s, "m", s->b[12], s->b[2], 0);
+			s->flag[0] = ok;
+			return 1;
+		}
+		case 3:
+			if (s->flag[0]) log_ver(s, "ver", cp_pss_ver(s->g1[5], s->g1[6], s->b[12], s->g2[5], s->g2[6], s->g2[7]) == 1);
+			else tr_printf("VER %d ver decode-failed\n", s->sid);
+			return 0;
+	}
+	return 0;
+}
+
+/* ---- Pointcheval-Sanders block, l = opt[4] in 1..3 ---- */
+static int sch_psb(sess_t *s) {
+	size_t l = (size_t)s->opt[4];
+	char name[8];
+	if (l < 1) l = 1;
+	if (l > 3) l = 3;
+	switch (s->phase) {
+		case 0:
+			/* r b[0], s[] b[1..3], g g2[0], x g2[1], y[] g2[2..4] */
+			log_rc(s, "gen", cp_psb_gen(s->b[0], s->b + 1, s->g2[0], s->g2[1], s->g2 + 2, l));
+			return 1;
+		case 1:
+			for (size_t i = 0; i < l; i++) { bn_rand_mod(s->b[6 + i], ord); }
+			log_rc(s, "sig", cp_psb_sig(s->g1[0], s->g1[1], (const bn_t *)(s->b + 6), s->b[0], (const bn_t *)(s->b + 1), l));
+			return 1;
+		case 2: {
+			int ok = 1;
+			ok &= xmit_g2(s, "g", s->g2[5], s->g2[0], (int)s->opt[1]);
+			ok &= xmit_g2(s, "x", s->g2[6], s->g2[1], (int)s->opt[1]);
+			for (size_t i = 0; i < l; i++) {
+				snprintf(name, sizeof(name), "y%zu", i);
+				ok &= xmit_g2(s, name, s->g2[7 + i], s->g2[2 + i], (int)s->opt[1]);
+				snprintf(name, sizeof(name), "m%zu", i);
+				ok &= xmit_bn(s, name, s->b[12 + i], s->b[6 + i], 0);
+			}
+			ok &= xmit_g1(s, "a", s->g1[5], s->g1[0], (int)s->opt[1]);
+			ok &= xmit_g1(s, "b", s->g1[6], s->g1[1], (int)s->opt[1]);
+			s->flag[0] = ok;
+			return 1;
+		}
+		case 3:
+			if (s->flag[0]) log_ver(s, "ver", cp_psb_ver(s->g1[5], s->g1[6], (const bn_t *)(s->b + 12), s->g2[5], s->g2[6],
+						(const g2_t *)(s->g2 + 7), l) == 1);
+			else tr_printf("VER %d ver decode-failed\n", s->sid);
+			return 0;
+	}
+	return 0;
+}
+
+/* ---- vBNN-IBS ---- */
+static int sch_vbnn(sess_t *s) {
+	static const uint8_t id[] = "alice@example";
+	switch (s->phase) {
+		case 0: log_rc(s, "gen", cp_vbnn_gen(s->b[0], s->e[0])); return 1;
+		case 1: log_rc(s, "genprv", cp_vbnn_gen_prv(s->b[1], s->e[1], s->b[0], id, sizeof(id) - 1)); return 1;
+		case 2: log_rc(s, "sig", cp_vbnn_sig(s->e[2], s->b[2], s->b[3], id, sizeof(id) - 1, s->msg, (int)s->msg_len, s->b[1], s->e[1])); return 1;
+		case 3: {
+			int ok = 1;
+			ok &= xmit_ec(s, "mpk", s->e[5], s->e[0], (int)s->opt[1]);
+			ok &= xmit_ec(s, "R", s->e[6], s->e[2], (int)s->opt[1]);
+			ok &= xmit_bn(s, "z", s->b[12], s->b[2], 0);
+			ok &= xmit_bn(s, "h", s->b[13], s->b[3], 0);
+			s->blen[1] = xmit_bytes(s, "id", s->buf[1], id, sizeof(id) - 1);
+			s->blen[0] = xmit_bytes(s, "msg", s->buf[0], s->msg, s->msg_len);
+			s->flag[0] = ok;
+			return 1;
+		}
+		case 4:
+			if (s->flag[0]) log_ver(s, "ver", cp_vbnn_ver(s->e[6], s->b[12], s->b[13], s->buf[1], s->blen[1], s->buf[0], (int)s->blen[0], s->e[5]) == 1);
+			else tr_printf("VER %d ver decode-failed\n", s->sid);
+			return 0;
+	}
+	return 0;
+}
+
+/* ---- proofs / signatures of knowledge of a discrete logarithm: opt[0] = 1 adds a message (sok) ---- */
+static int sch_pokdl(sess_t *s) {
+	int sok = !strcmp(s->scheme, "sokdl");
+	switch (s->phase) {
+		case 0: bn_rand_mod(s->b[0], ord); ec_mul_gen(s->e[0], s->b[0]); return 1;
+		case 1:
+			if (sok) log_rc(s, "prv", cp_sokdl_sig(s->b[1], s->b[2], s->msg, s->msg_len, s->e[0], s->b[0]));
+			else log_rc(s, "prv", cp_pokdl_prv(s->b[1], s->b[2], s->e[0], s->b[0]));
+			return 1;
+		case 2: {
+			int ok = 1;
+			ok &= xmit_ec(s, "y", s->e[5], s->e[0], (int)s->opt[1]);
+			ok &= xmit_bn(s, "c", s->b[12], s->b[1], 0);
+			ok &= xmit_bn(s, "r", s->b[13], s->b[2], 0);
+			if (sok) s->blen[0] = xmit_bytes(s, "msg", s->buf[0], s->msg, s->msg_len);
+			s->flag[0] = ok;
+			return 1;
+		}
+		case 3:
+			if (s->flag[0]) {
+				if (sok) log_ver(s, "ver", cp_sokdl_ver(s->b[12], s->b[13], s->buf[0], s->blen[0], s->e[5]) == 1);
+				else log_ver(s, "ver", cp_pokdl_ver(s->b[12], s->b[13], s->e[5]) == 1);
+			} else tr_printf("VER %d ver decode-failed\n", s->sid);
+			return 0;
+	}
+	return 0;
+}
+
+/* ---- OR-proofs: the prover knows the logarithm of y[opt[6] & 1] only ---- */
+static int sch_pokor(sess_t *s) {
+	int sok = !strcmp(s->scheme, "sokor");
+	int first = (int)(s->opt[6] & 1);
+	switch (s->phase) {
+		case 0:
+			bn_rand_mod(s->b[0], ord);
+			if (sok && first) { ec_mul_gen(s->e[0], s->b[0]); ec_rand(s->e[1]); }
+			else { ec_rand(s->e[0]); ec_mul_gen(s->e[1], s->b[0]); }
+			return 1;
+		case 1:
+			/* c[] b[1..2], r[] b[3..4], y[] e[0..1] */
+			if (sok) log_rc(s, "prv", cp_sokor_sig(s->b + 1, s->b + 3, s->msg, s->msg_len, (const ec_t *)s->e, NULL, s->b[0], first));
+			else log_rc(s, "prv", cp_pokor_prv(s->b + 1, s->b + 3, (const ec_t *)s->e, s->b[0]));
+			return 1;
+		case 2: {
+			int ok = 1;
+			fault_t *f = find_fault(s, "stmt");
+			int swap = f && !strcmp(f->kind, "v_swap");
+			/* the adversary may swap the two statements of the disjunction */
+			ok &= xmit_ec(s, "y0", s->e[5], s->e[swap ? 1 : 0], (int)s->opt[1]);
+			ok &= xmit_ec(s, "y1", s->e[6], s->e[swap ? 0 : 1], (int)s->opt[1]);
+			if (swap) tr_printf("NOTE %d statements-swapped\n", s->sid);
+			ok &= xmit_bn(s, "c0", s->b[12], s->b[1], 0);
+			ok &= xmit_bn(s, "c1", s->b[13], s->b[2], 0);
+			ok &= xmit_bn(s, "r0", s->b[14], s->b[3], 0);
+			ok &= xmit_bn(s, "r1", s->b[15], s->b[4], 0);
+			if (sok) s->blen[0] = xmit_bytes(s, "msg", s->buf[0], s->msg, s->msg_len);
+			s->flag[0] = ok;
+			return 1;
+		}
+		case 3:
+			if (s->flag[0]) {
+				if (sok) log_ver(s, "ver", cp_sokor_ver((const bn_t *)(s->b + 12), (const bn_t *)(s->b + 14), s->buf[0], s->blen[0], (const ec_t *)(s->e + 5), NULL) == 1);
+				else log_ver(s, "ver", cp_pokor_ver((const bn_t *)(s->b + 12), (const bn_t *)(s->b + 14), (const ec_t *)(s->e + 5)) == 1);
+			} else tr_printf("VER %d ver decode-failed\n", s->sid);
+			return 0;
+	}
+	return 0;
+}
+
+/* ---- extendable ring signatures: opt[4] = ring size after extension (1..3) ---- */
+static ers_t ring_a[NSESS][3], ring_b[NSESS][3];
+static int rings_ready = 0;
+static void rings_init(void) {
+	if (rings_ready) return;
+	for (int i = 0; i < NSESS; i++) {
+		for (int j = 0; j < 3; j++) {
+			ers_null(ring_a[i][j]); ers_new(ring_a[i][j]);
+			ers_null(ring_b[i][j]); ers_new(ring_b[i][j]);
+		}
+	}
+	rings_ready = 1;
+}
+
+static int sch_ers(sess_t *s) {
+	size_t want = (size_t)s->opt[4];
+	char name[12];
+	if (want < 1) want = 1;
+	if (want > 3) want = 3;
+	rings_init();
+	ers_t *ra = ring_a[s->sid], *rb = ring_b[s->sid];
+	switch (s->phase) {
+		case 0:
+			log_rc(s, "genpp", cp_ers_gen(s->e[0]));
+			for (int i = 0; i < 3; i++) { log_rc(s, "genkey", cp_ers_gen_key(s->b[i], s->e[1 + i])); }
+			return 1;
+		case 1:
+			log_rc(s, "sig", cp_ers_sig(s->b[4], ra[0], s->msg, s->msg_len, s->b[0], s->e[1], s->e[0]));
+			s->blen[5] = 1;
+			return 1;
+		case 2: {
+			/* members join in turn (a history of extensions) */
+			size_t size = s->blen[5];
+			while (size < want) {
+				int rc = cp_ers_ext(s->b[4], (ers_t *)ra, &size, s->msg, s->msg_len, s->e[1 + size], s->e[0]);
+				log_rc(s, "ext", rc);
+				if (rc != RLC_OK) break;
+			}
+			s->blen[5] = size;
+			return 1;
+		}
+		case 3: {
+			int ok = 1;
+			size_t size = s->blen[5];
+			ok &= xmit_ec(s, "pp", s->e[5], s->e[0], (int)s->opt[1]);
+			ok &= xmit_bn(s, "td", s->b[12], s->b[4], 0);
+			for (size_t i = 0; i < size; i++) {
+				snprintf(name, sizeof(name), "h%zu", i); ok &= xmit_ec(s, name, rb[i]->h, ra[i]->h, (int)s->opt[1]);
+				snprintf(name, sizeof(name), "pk%zu", i); ok &= xmit_ec(s, name, rb[i]->pk, ra[i]->pk, (int)s->opt[1]);
+				snprintf(name, sizeof(name), "c%zu0", i); ok &= xmit_bn(s, name, rb[i]->c[0], ra[i]->c[0], 0);
+				snprintf(name, sizeof(name), "c%zu1", i); ok &= xmit_bn(s, name, rb[i]->c[1], ra[i]->c[1], 0);
+				snprintf(name, sizeof(name), "r%zu0", i); ok &= xmit_bn(s, name, rb[i]->r[0], ra[i]->r[0], 0);
+				snprintf(name, sizeof(name), "r%zu1", i); ok &= xmit_bn(s, name, rb[i]->r[1], ra[i]->r[1], 0);
+			}
+			s->blen[0] = xmit_bytes(s, "msg", s->buf[0], s->msg, s->msg_len);
+			s->flag[0] = ok;
+			return 1;
+		}
+		case 4:
+			if (s->flag[0]) log_ver(s, "ver", cp_ers_ver(s->b[12], (const ers_t *)rb, s->blen[5], s->buf[0], s->blen[0], s->e[5]) == 1);
+			else tr_printf("VER %d ver decode-failed\n", s->sid);
+			return 0;
+	}
+	return 0;
+}
+
+/* ---- multi-key linearly homomorphic signatures: 2 signers x 2 labels, evaluator combines ---- */
+static int sch_mklhs(sess_t *s) {
+	static const char *data = "database-identifier";
+	static const char *id[2] = { "Alice", "Bob" };
+	static const char *tags[2] = { "l0", "l1" };
+	switch (s->phase) {
+		case 0:
+			/* sk b[0..1], pk g2[0..1] */
+			for (int j = 0; j < 2; j++) { log_rc(s, "gen", cp_mklhs_gen(s->b[j], s->g2[j])); }
+			return 1;
+		case 1:
+			/* messages b[2 + 2j + l], signatures g1[2j + l] */
+			for (int j = 0; j < 2; j++) {
+				for (int l = 0; l < 2; l++) {
+					bn_rand_mod(s->b[2 + 2 * j + l], ord);
+					log_rc(s, "sig", cp_mklhs_sig(s->g1[2 * j + l], s->b[2 + 2 * j + l], data, id[j], tags[l], s->b[j]));
+				}
+			}
+			return 1;
+		case 2: {
+			/* evaluator: coefficients from the plan; mu_j b[6 + j], combined signature g1[4], combined message b[8] */
+			dig_t f[2][2];
+			for (int j = 0; j < 2; j++) { for (int l = 0; l < 2; l++) { f[j][l] = (dig_t)(1 + ((s->opt[7] >> (4 * (2 * j + l))) & 15)); } }
+			g1_set_infty(s->g1[4]);
+			bn_zero(s->b[8]);
+			for (int j = 0; j < 2; j++) {
+				log_rc(s, "fun", cp_mklhs_fun(s->b[6 + j], (const bn_t *)(s->b + 2 + 2 * j), f[j], 2));
+				log_rc(s, "evl", cp_mklhs_evl(s->g1[5], (const g1_t *)(s->g1 + 2 * j), f[j], 2));
+				g1_add(s->g1[4], s->g1[4], s->g1[5]);
+				for (int l = 0; l < 2; l++) {
+					bn_mul_dig(s->b[9], s->b[2 + 2 * j + l], f[j][l]);
+					bn_add(s->b[8], s->b[8], s->b[9]);
+					bn_mod(s->b[8], s->b[8], ord);
+				}
+			}
+			g1_norm(s->g1[4], s->g1[4]);
+			return 1;
+		}
+		case 3: {
+			int ok = 1;
+			ok &= xmit_g2(s, "pk0", s->g2[5], s->g2[0], (int)s->opt[1]);
+			ok &= xmit_g2(s, "pk1", s->g2[6], s->g2[1], (int)s->opt[1]);
+			ok &= xmit_g1(s, "sig", s->g1[6], s->g1[4], (int)s->opt[1]);
+			ok &= xmit_bn(s, "m", s->b[12], s->b[8], 0);
+			ok &= xmit_bn(s, "mu0", s->b[13], s->b[6], 0);
+			ok &= xmit_bn(s, "mu1", s->b[14], s->b[7], 0);
+			s->flag[0] = ok;
+			return 1;
+		}
+		case 4:
+			if (s->flag[0]) {
+				dig_t f[2][2], ft[2];
+				const dig_t *fp[2] = { f[0], f[1] };
+				size_t flen[2] = { 2, 2 };
+				g1_t h[2];
+				for (int j = 0; j < 2; j++) { for (int l = 0; l < 2; l++) { f[j][l] = (dig_t)(1 + ((s->opt[7] >> (4 * (2 * j + l))) & 15)); } }
+				int v1 = cp_mklhs_ver(s->g1[6], s->b[12], (const bn_t *)(s->b + 13), data, id, tags, fp, flen, (const g2_t *)(s->g2 + 5), 2) == 1;
+				log_ver(s, "ver", v1);
+				/* offline/online verification must agree with plain verification */
+				for (int j = 0; j < 2; j++) { g1_null(h[j]); g1_new(h[j]); }
+				cp_mklhs_off(h, ft, id, tags, fp, flen, 2);
+				int v2 = cp_mklhs_onv(s->g1[6], s->b[12], (const bn_t *)(s->b + 13), data, id, (const g1_t *)h, ft, (const g2_t *)(s->g2 + 5), 2) == 1;
+				log_ver(s, "onv", v2);
+				for (int j = 0; j < 2; j++) { g1_free(h[j]); }
+			} else tr_printf("VER %d ver decode-failed\n", s->sid);
+			return 0;
+	}
+	return 0;
+}
+
+#define EXTRA_SCHEMES \
+	{ "bbs", sch_bbs, 1, 0, 0 }, { "zss", sch_zss, 1, 0, 0 }, { "cls", sch_cls, 1, 0, 0 }, { "cli", sch_cli, 1, 0, 0 }, \
+	{ "clb", sch_clb, 1, 0, 0 }, { "pss", sch_pss, 1, 0, 0 }, { "psb", sch_psb, 1, 0, 0 }, { "vbnn", sch_vbnn, 0, 0, 0 }, \
+	{ "pokdl", sch_pokdl, 0, 0, 0 }, { "sokdl", sch_pokdl, 0, 0, 0 }, { "pokor", sch_pokor, 0, 0, 0 }, { "sokor", sch_pokor, 0, 0, 0 }, \
+	{ "ers", sch_ers, 0, 0, 0 }, { "mklhs", sch_mklhs, 1, 0, 0 },
